@@ -442,6 +442,10 @@ theorem accuracy_unit_ieee {F} [NumN F] (L : ConfLaws F) :
     unfold accuracyReg
     exact L.frac_unit _ _ (List.length_filter_le _ _) (List.length_pos_iff.mpr h)
 
+/-- `accuracy_metric` is the only class derived from `model_metric` in the current source (generated
+    list): a new metric breaks this obligation until it is modelled -/
+theorem every_metric_is_modelled : Gen.metrics = ["accuracy_metric"] := by decide
+
 /-! ## it is the same function the TRAINING evaluator scored (C05's evaluators END TO END)
 
   `Cls.dynSlotEvaluator`, `Cls.gaussianEvaluator`, `Cls.binaryEvaluator` are C05's models of
